@@ -29,6 +29,12 @@ type nodeEdgeUnifier struct {
 	// outChanRestr is an optional outgoing channel restriction for the
 	// local channel to use.
 	outChanRestr map[uint64]struct{}
+
+	// outChanRestrNode is the node whose outgoing channels outChanRestr
+	// applies to, i.e. the first node of the route. It defaults to
+	// sourceNode and only differs when a route is searched from a node
+	// other than ourselves.
+	outChanRestrNode route.Vertex
 }
 
 // newNodeEdgeUnifier instantiates a new nodeEdgeUnifier object. Channel
@@ -42,6 +48,8 @@ func newNodeEdgeUnifier(sourceNode, toNode route.Vertex, useInboundFees bool,
 		useInboundFees: useInboundFees,
 		sourceNode:     sourceNode,
 		outChanRestr:   outChanRestr,
+
+		outChanRestrNode: sourceNode,
 	}
 }
 
@@ -56,8 +64,9 @@ func (u *nodeEdgeUnifier) addPolicy(fromNode route.Vertex,
 
 	localChan := fromNode == u.sourceNode
 
-	// Skip channels if there is an outgoing channel restriction.
-	if localChan && u.outChanRestr != nil {
+	// Skip channels if there is an outgoing channel restriction. It applies
+	// to the channels of the first node of the route.
+	if fromNode == u.outChanRestrNode && u.outChanRestr != nil {
 		if _, ok := u.outChanRestr[edge.ChannelID]; !ok {
 			log.Debugf("Skipped adding policy for restricted edge "+
 				"%v", edge.ChannelID)
